@@ -305,6 +305,12 @@ def F_branch(ctx, lib):
                     names = set(flow.last(str(n_[1])) for n_ in comb)
                     over = set()
                     for t_ in tfes:
+                        # every literal of the cube is examined: nothing but iter()/into_iter() between the literal list and try_for_each (a skipped literal is
+                        # neither checked against the interpretation nor applied to it; third sweep: positive.iter().skip(1))
+                        whole = all(flow.last(str(n_[1])) in ("iter", "into_iter", "deref", "as_slice", "&", "copied", "cloned", "as_ref", "borrow")
+                                    for n_ in symx.find_all(t_[2][0], lambda n_: n_[0] == "app"))
+                        if not whole:
+                            continue
                         if symx.contains(t_[2][0], lambda n_: n_ == ("sym", "neg")):
                             over.add("neg")
                         if symx.contains(t_[2][0], lambda n_: n_ == ("sym", "pos")):
